@@ -4,6 +4,8 @@ use std::borrow::Cow;
 pub(crate) struct CookieDeserializer<'de> {
     input: &'de [u8],
     side:  ParsingSide,
+    /// whether the top-level map is not started yet ( the only place where a map can be )
+    top:   bool,
 }
 #[derive(Debug, PartialEq, Clone, Copy)]
 enum ParsingSide {
@@ -13,7 +15,7 @@ enum ParsingSide {
 
 impl<'de> CookieDeserializer<'de> {
     pub(crate) const fn new(input: &'de str) -> Self {
-        Self { input: input.as_bytes(), side: ParsingSide::Name }
+        Self { input: input.as_bytes(), side: ParsingSide::Name, top: true }
     }
     pub(crate) const fn remaining(&self) -> &'de [u8] {
         &self.input
@@ -127,7 +129,12 @@ impl<'u, 'de> serde::Deserializer<'de> for &'u mut CookieDeserializer<'de> {
 
     fn deserialize_any<V>(self, visitor: V) -> Result<V::Value, Self::Error>
     where V: serde::de::Visitor<'de> {
-        self.deserialize_map(visitor)
+        /* only the whole input is a map; names and values describe themselves as strings */
+        if self.top {
+            self.deserialize_map(visitor)
+        } else {
+            self.deserialize_str(visitor)
+        }
     }
 
     /// when the visitor visits value of unkown key
@@ -143,8 +150,9 @@ impl<'u, 'de> serde::Deserializer<'de> for &'u mut CookieDeserializer<'de> {
     #[inline(always)]
     fn deserialize_map<V>(self, visitor: V) -> Result<V::Value, Self::Error>
     where V: serde::de::Visitor<'de> {
-        #[cfg(debug_assertions)] {
-            assert!(self.side == ParsingSide::Name);
+        /* a map-like type as a name or a value would go on consuming the input of the top-level one */
+        if !std::mem::replace(&mut self.top, false) {
+            return Err(serde::de::Error::custom("nested map-like types are not supported"))
         }
 
         visitor.visit_map(AmpersandSeparated::new(self))
